@@ -380,95 +380,98 @@ func ruleOffsetPlumbing(w *core.World, r *core.Report) {
 
 func ruleBulkFraming(w *core.World, r *core.Report) {
 	if f := fn(w, r, "(*pkg/redis/client.Decoder).decodeBulkBytes"); f != nil {
-		isN := isResultOf("(*pkg/redis/client.Decoder).decodeInt", 0)
-		var buf *ssa.MakeSlice
-		for _, in := range core.Instrs(f) {
-			if ms, ok := in.(*ssa.MakeSlice); ok {
-				if b, ok := core.Unwrap(ms.Len).(*ssa.BinOp); ok && b.Op == token.ADD && isN(b.X) && isConstInt(2)(b.Y) {
-					buf = ms
+		// decided on paths: "n" is whatever resolves, on the path, to the length the header announced (the result of
+		// decodeInt) — read here, or in a helper the function obtains the length from (see r7_n3.go)
+		isLen := isResultOf("(*pkg/redis/client.Decoder).decodeInt", 0)
+		bad := ""
+		var badPos token.Pos = f.Pos()
+		succ := 0
+		core.EnumPaths(f.Blocks[0], 0, 10000, func(p *core.Path) {
+			ret, ok := p.End.(*ssa.Return)
+			if !ok || len(ret.Results) != 2 || !pathNil(p, ret.Results[1]) || bad != "" {
+				return
+			}
+			isN := onPath(p, isLen)
+			v := p.Resolve(ret.Results[0])
+			if core.IsNilConst(v) {
+				if !p.Holds(token.EQL, isN, isConstInt(-1)) {
+					bad, badPos = "a nil argument is returned on a path where the length is not -1", ret.Pos()
+				}
+				return
+			}
+			succ++
+			sl, ok := v.(*ssa.Slice)
+			var buf *ssa.MakeSlice
+			if ok {
+				if ms, isMs := p.Resolve(sl.X).(*ssa.MakeSlice); isMs {
+					if b, isB := core.Unwrap(ms.Len).(*ssa.BinOp); isB && b.Op == token.ADD && isN(b.X) && isConstInt(2)(b.Y) {
+						buf = ms
+					}
 				}
 			}
-		}
-		bad := ""
-		var badPos token.Pos
-		succ := 0
-		if buf == nil {
-			bad, badPos = "no buffer of n+2 bytes is allocated for the bulk", f.Pos()
-		} else {
-			core.EnumPaths(f.Blocks[0], 0, 10000, func(p *core.Path) {
-				ret, ok := p.End.(*ssa.Return)
-				if !ok || len(ret.Results) != 2 || !pathNil(p, ret.Results[1]) || bad != "" {
-					return
+			if buf == nil {
+				bad, badPos = "a successful return is not a slice of a buffer of n+2 bytes allocated for the bulk (n the announced length): argument bytes are dropped, added or replaced", ret.Pos()
+				return
+			}
+			if sl.Low != nil || !isN(sl.High) {
+				bad, badPos = "a successful return is not buffer[:n]: argument bytes are dropped, added or replaced", ret.Pos()
+				return
+			}
+			full, cr, lf := false, false, false
+			for _, s := range pathSites(p) {
+				if s.Name == "io.ReadFull" && len(s.Common().Args) == 2 && p.Resolve(s.Common().Args[1]) == ssa.Value(buf) {
+					full = true
 				}
-				v := p.Resolve(ret.Results[0])
-				if core.IsNilConst(v) {
-					if !p.Holds(token.EQL, isN, isConstInt(-1)) {
-						bad, badPos = "a nil argument is returned on a path where the length is not -1", ret.Pos()
-					}
-					return
+			}
+			for _, fct := range p.Conds {
+				c, ok := core.FactCmp(fct)
+				if !ok || c.Op != token.EQL {
+					continue
 				}
-				succ++
-				sl, ok := v.(*ssa.Slice)
-				if !ok || sl.X != ssa.Value(buf) || sl.Low != nil || !isN(core.Unwrap(sl.High)) {
-					bad, badPos = "a successful return is not buffer[:n]: argument bytes are dropped, added or replaced", ret.Pos()
-					return
+				ld, ok := core.Unwrap(c.X).(*ssa.UnOp)
+				if !ok {
+					continue
 				}
-				full, cr, lf := false, false, false
-				for _, s := range pathSites(p) {
-					if s.Name == "io.ReadFull" && len(s.Common().Args) == 2 && s.Common().Args[1] == ssa.Value(buf) {
-						full = true
-					}
+				ia, ok := ld.X.(*ssa.IndexAddr)
+				if !ok || p.Resolve(ia.X) != ssa.Value(buf) {
+					continue
 				}
-				for _, fct := range p.Conds {
-					c, ok := core.FactCmp(fct)
-					if !ok || c.Op != token.EQL {
-						continue
-					}
-					ld, ok := core.Unwrap(c.X).(*ssa.UnOp)
-					if !ok {
-						continue
-					}
-					ia, ok := ld.X.(*ssa.IndexAddr)
-					if !ok || ia.X != ssa.Value(buf) {
-						continue
-					}
-					if isN(core.Unwrap(ia.Index)) && isConstInt('\r')(c.Y) {
-						cr = true
-					}
-					if b, ok := core.Unwrap(ia.Index).(*ssa.BinOp); ok && b.Op == token.ADD && isN(b.X) && isConstInt(1)(b.Y) && isConstInt('\n')(c.Y) {
-						lf = true
-					}
+				if isN(ia.Index) && isConstInt('\r')(c.Y) {
+					cr = true
 				}
-				if !full || !cr || !lf {
-					bad, badPos = "the argument is returned without reading n+2 bytes fully and checking CR LF at n, n+1", ret.Pos()
+				if b, ok := core.Unwrap(ia.Index).(*ssa.BinOp); ok && b.Op == token.ADD && isN(b.X) && isConstInt(1)(b.Y) && isConstInt('\n')(c.Y) {
+					lf = true
 				}
-			})
-		}
+			}
+			if !full || !cr || !lf {
+				bad, badPos = "the argument is returned without reading n+2 bytes fully and checking CR LF at n, n+1", ret.Pos()
+			}
+		})
 		r.Check(bad == "" && succ > 0, "Decoder.decodeBulkBytes/framing", badPos, "%s", bad)
 	}
 	if f := fn(w, r, "pkg/redis/client.ParseArgs"); f != nil {
-		ok := false
-		for _, in := range core.Instrs(f) {
-			ret, isRet := in.(*ssa.Return)
-			if !isRet || len(ret.Results) != 3 {
-				continue
+		// decided on paths (the conversion loop and the split into name and arguments may be phases of their own):
+		// every return with a nil error hands out list[1:] of the list that was allocated for the elements
+		bad, succ := "", 0
+		var badPos token.Pos = f.Pos()
+		okEnum := core.EnumPaths(f.Blocks[0], 0, 20000, func(p *core.Path) {
+			ret, ok := p.End.(*ssa.Return)
+			if !ok || len(ret.Results) != 3 || bad != "" || !pathNil(p, ret.Results[2]) {
+				return
 			}
-			for _, v := range core.RetVals(ret, 2) {
-				if !core.IsNilConst(v) {
-					goto next
+			succ++
+			if sl, isSl := p.Resolve(ret.Results[1]).(*ssa.Slice); isSl && isConstInt(1)(sl.Low) && sl.High == nil && sl.Max == nil {
+				if _, isMk := p.Resolve(sl.X).(*ssa.MakeSlice); isMk {
+					return
 				}
 			}
-			for _, v := range core.RetVals(ret, 1) {
-				sl, isSl := v.(*ssa.Slice)
-				if isSl && isConstInt(1)(sl.Low) && sl.High == nil {
-					if _, isMk := sl.X.(*ssa.MakeSlice); isMk {
-						ok = true
-					}
-				}
-			}
-		next:
+			bad, badPos = "a return without error does not carry list[1:] of the list built from the elements", ret.Pos()
+		})
+		if !okEnum {
+			r.Undecided("ParseArgs/args", f.Pos(), "too many paths")
+		} else {
+			r.Check(bad == "" && succ > 0, "ParseArgs/args", badPos, "the success return must carry every element after the command name (bs[1:]): %s (returns without error: %d)", bad, succ)
 		}
-		r.Check(ok, "ParseArgs/args", f.Pos(), "the success return must carry every element after the command name (bs[1:])")
 	}
 }
 
